@@ -301,3 +301,5 @@ RF("C19", _IV, "                choice = Options(enabled)\n            return ch
 M("C20", "C20.adjacent", "src/scenic/formats/opendrive/xodr_parser.py", "            for section in lane.sections:\n                adj.extend(sec.lane for sec in section.adjacentLanes)", "            for section in lane.sections[:1]:\n                adj.extend(sec.lane for sec in section.adjacentLanes)", "c20-lane-adjacency-first-section")
 M("C20", "C20.cover", "src/scenic/formats/opendrive/xodr_parser.py", "            laneRegion=combine(lanes),", "            laneRegion=combine(lanes),\n            drivableRegion=PolygonalRegion(polygon=self.drivable_region),", "c20-drivable-includes-gaps")
 M("C15", "C15.sinks", _SI, "            self.agents += [\n                obj for obj in self.objects if obj.behavior and obj not in self.agents\n            ]", "            self.agents += list({obj for obj in self.objects if obj.behavior} - set(self.agents))", "c15-agents-from-set")
+M("C12", "C12.logs", _SI, "            allActions = defaultdict(tuple)", "            allActions = defaultdict(tuple, {a: () for a in self.agents})", "c12-action-map-prefilled")
+M("C14", "C14.cleanup", _SI, "                for obj in self.objects:\n                    disableDynamicProxyFor(obj)\n                for agent in self.agents:\n                    if agent.behavior and agent.behavior._isRunning:\n                        agent.behavior._stop()", "                for agent in self.agents:\n                    if agent.behavior and agent.behavior._isRunning:\n                        agent.behavior._stop()\n                for obj in self.objects:\n                    disableDynamicProxyFor(obj)", "c14-behaviours-stopped-through-proxies")
